@@ -29,6 +29,8 @@ ASSUMPTIONS = [
 
 def bound(tier):
   return {"max_bits": 6 if tier == "quick" else 8, "lattice": "full product",
+          "float32_sweep": "none" if tier == "quick" else "all 2^32 bit patterns (finite, below the 2^24-step horizon) "
+                           "for %d configurations, 16 shards each" % len(SWEEP_CONFIGS),
           "alphabet": "A_fix (see C01), sorted; adjacent pairs give the monotonicity obligations"}
 
 
@@ -36,8 +38,90 @@ def worker_init():
   common.tf_init()
 
 
+SWEEP_CONFIGS = [
+    dict(cls="quantized_bits", bits=4, integer=0, keep_negative=True, symmetric=1, alpha=None),
+    dict(cls="quantized_bits", bits=8, integer=2, keep_negative=True, symmetric=0, alpha=None),
+    dict(cls="quantized_bits", bits=3, integer=1, keep_negative=False, symmetric=0, alpha=None),
+    dict(cls="quantized_linear", bits=6, integer=1, keep_negative=True, symmetric=1, alpha=None),
+    dict(cls="quantized_relu", bits=4, integer=1, slope=0.0),
+    dict(cls="quantized_relu", bits=6, integer=2, slope=0.25),
+    dict(cls="quantized_tanh", bits=5, symmetric=0, mode="hard"),
+    dict(cls="quantized_sigmoid", bits=4, symmetric=1, mode="hard"),
+]
+SHARDS = 16          # 2^28 float32 bit patterns each
+
+
 def enumerate_cases(tier, seed):
-  return fp.configs(6 if tier == "quick" else 8)
+  cases = fp.configs(6 if tier == "quick" else 8)
+  if tier == "thorough":
+    # complete float32 sweep: every bit pattern of every finite input below the 2^24-step horizon
+    for cfg in SWEEP_CONFIGS:
+      for sh in range(SHARDS):
+        cases.append(dict(sweep=sh, **cfg))
+  return cases
+
+
+def run_sweep(cfg):
+  """All 2^28 bit patterns of one shard (shards 0-7: positive floats ascending, 8-15: negative floats, magnitude
+  ascending).  Every finite input below the horizon is decided: code membership, nearest / end code, monotone
+  against its predecessor in bit-pattern order."""
+  tf = common.tf_init()
+  common.reset_keras()
+  sh = cfg["sweep"]
+  base = {k: v for k, v in cfg.items() if k != "sweep"}
+  f = fp.fmt(base)
+  q = fp.make(base)
+  horizon = 2.0 ** 24 * min(f["step"], f.get("ustep", f["step"])) if f["kind"] in ("linear", "relu", "leaky") else np.inf
+  viol = []
+
+  def bad(clause, what, **d):
+    if len(viol) < 5 and not any(v["key"].endswith(clause) for v in viol):
+      viol.append({"key": "%s:sweep:%s" % (base["cls"], clause), "what": "%s float32 sweep %s: %s" % (base["cls"], clause, what),
+                   "detail": dict(cfg=cfg, **d)})
+  BL = 1 << 22
+  start = sh << 28
+  negative = sh >= 8
+  decided = 0
+  prev_y = None
+  prev_c = None
+  h = 0
+  for b in range((1 << 28) // BL):
+    pats = np.arange(start + b * BL, start + (b + 1) * BL, dtype=np.uint64).astype(np.uint32)
+    x = pats.view(np.float32)
+    keep = np.isfinite(x) & (np.abs(x.astype(np.float64)) < horizon)
+    if not keep.any():
+      continue
+    x = x[keep]
+    y = np.asarray(q(tf.constant(x)), dtype=np.float32)
+    y64 = y.astype(np.float64)
+    cmin, cmax, a = expected_interval(base, f, x.astype(np.float64))
+    c = y64 / f["step"]
+    ok = (c == np.round(c)) & (c >= cmin) & (c <= cmax)
+    decided += int(x.size)
+    if not ok.all():
+      i = int(np.flatnonzero(~ok)[0])
+      bad("nearest", "x=%r (bits 0x%08x) -> %r (code %r), admissible codes [%d,%d]" % (
+          float(x[i]), int(x[i:i + 1].view(np.uint32)[0]), float(y[i]), float(c[i]), cmin[i], cmax[i]), x=float(x[i]))
+    # monotone in input order: positive shards ascend, negative shards descend in value
+    seq = c if not negative else -c
+    dec = np.diff(seq) < 0
+    if prev_c is not None and seq[0] < prev_c and not (fp.slack(f) > 0):
+      dec = np.concatenate([[True], dec])
+      seq_cmax = None
+    if dec.any() and fp.slack(f) > 0:
+      cm_lo, cm_hi = (cmin, cmax) if not negative else (-cmax, -cmin)
+      n = min(len(dec), len(seq) - 1)
+      excuse = (seq[:-1][:n] <= cm_hi[1:][:n]) & (seq[1:][:n] >= cm_lo[:-1][:n])
+      dec = dec[-n:] & ~excuse
+    if dec.any():
+      i = int(np.flatnonzero(dec)[0])
+      bad("monotone", "output decreases between adjacent float32 inputs near x=%r" % float(x[min(i, x.size - 1)]))
+    prev_c = seq[-1]
+    h = (h * 1000003 + int(np.sum(c[:: 4099]) * 16) + int(x.size)) % (1 << 61)
+  return {"evals": decided, "transitions": (1 << 28) // BL, "nontrivial": int(decided > 0),
+          "state": "sweep:%r:%d" % (sorted(base.items()), sh), "digest": common.digest(h, decided), "violations": viol,
+          "traces": decided, "info": {"sweep_inputs_decided": decided},
+          "sample": {"sweep_config": base, "shard": sh, "inputs_decided": decided}}
 
 
 def _tags(cfg, f):
@@ -65,6 +149,8 @@ def expected_interval(cfg, f, x):
 
 
 def run_case(cfg):
+  if "sweep" in cfg:
+    return run_sweep(cfg)
   tf = common.tf_init()
   common.reset_keras()
   f = fp.fmt(cfg)
